@@ -415,7 +415,8 @@ def _ma_infos(groups, single, discrete, with_mask):
     any_ed = any(r["envdef"] for g in groups for r in g["rows"])
     for aid, g in zip(AGENT_IDS, groups):
         info = {}
-        if discrete and with_mask:
+        if discrete and with_mask and not (with_mask == "sparse" and all_ones(g["rows"])):
+            # with_mask == "sparse": an agent for which every action is legal hands over no mask (an empty info dictionary)
             info["action_mask"] = mask_arg(g["rows"], single)
         if any_ed:
             if discrete:
@@ -673,7 +674,7 @@ def rerun(cfg, seed=0):
             return run_ma_cont(zoo, alg, groups, training=training, single=single, variant=variant,
                                act=("Softsign" if variant.endswith("+softsign") else "Tanh"))
         return run_ma_disc(zoo, alg, groups, training=training, single=single, variant=variant,
-                           with_mask=cfg.get("masked", True))
+                           with_mask=("sparse" if variant.endswith("+sparse") else cfg.get("masked", True)))
     if alg == "IPPO":
         return run_ippo(zoo, groups, training=training, mask_form=variant.split("+")[0].split("-")[1] if variant.startswith("mask-") else "list",
                         variant=variant if variant.endswith("+infos-reversed") else "")
